@@ -243,6 +243,89 @@ type verifC27Ev struct {
 	oldID    int64 // row id before the change (update, delete)
 	newID    int64 // row id after the change (insert, update)
 	old, new []verifC27Cell
+	// seed: the values with which the row was put in place when that happened before the table's
+	// definition was changed (nil = the row is put in place as `old`, under the current definition)
+	seed []verifC27Cell
+	// names: the columns of the table when the change is committed (nil = not examined)
+	names []string
+}
+
+// ---------------------------------------------------------------------------------------------
+// table definitions. "Write programs" may change a table's definition between two writes, so the
+// harness keeps, for each of the three tables, the list of its column names. A local `plan` is the
+// copy used while a program is generated (to give every row the width its table has at that point
+// of the program), verifC27World the definitions as they are while the program runs (natively the
+// SQL text is built from it, and db.DB.ColumnNames is compared with it by the oracle).
+
+const (
+	vdNone             = iota
+	vdAddColumn        // ALTER TABLE t ADD COLUMN <fresh name>: existing rows read NULL there
+	vdDropFirst        // ALTER TABLE t DROP COLUMN <first column>
+	vdDropLast         // ALTER TABLE t DROP COLUMN <last column>
+	vdRecreateWider    // DROP TABLE t; CREATE TABLE t(<one column more, fresh names>): no rows left
+	vdRecreateNarrower // DROP TABLE t; CREATE TABLE t(<one column fewer, fresh names>)
+	vdKinds
+)
+
+type verifC27Defs struct {
+	cols [3][]string
+	next [3]int // number of the next fresh column name of the table
+}
+
+var verifC27World verifC27Defs
+
+func verifC27Fresh(next *int) string {
+	s := "c" + string(rune('0'+*next/10)) + string(rune('0'+*next%10))
+	*next++
+	return s
+}
+
+func (s *verifC27Defs) init(nc int) {
+	for t := range s.cols {
+		s.next[t] = 0
+		s.cols[t] = nil
+		for j := 0; j < nc; j++ {
+			s.cols[t] = append(s.cols[t], verifC27Fresh(&s.next[t]))
+		}
+	}
+}
+
+// apply changes the definition of one table; false = SQLite would refuse (a table keeps at least
+// one column) and nothing is changed.
+func (s *verifC27Defs) apply(table, kind int) bool {
+	cols := s.cols[table]
+	switch kind {
+	case vdAddColumn:
+		s.cols[table] = append(append([]string{}, cols...), verifC27Fresh(&s.next[table]))
+	case vdDropFirst:
+		if len(cols) < 2 {
+			return false
+		}
+		s.cols[table] = append([]string{}, cols[1:]...)
+	case vdDropLast:
+		if len(cols) < 2 {
+			return false
+		}
+		s.cols[table] = append([]string{}, cols[:len(cols)-1]...)
+	case vdRecreateWider, vdRecreateNarrower:
+		w := len(cols) + 1
+		if kind == vdRecreateNarrower {
+			w = len(cols) - 1
+		}
+		if w < 1 {
+			return false
+		}
+		s.cols[table] = nil
+		for j := 0; j < w; j++ {
+			s.cols[table] = append(s.cols[table], verifC27Fresh(&s.next[table]))
+		}
+	}
+	return true
+}
+
+// one step of a program that changes a table's definition (kind vdNone = no such step)
+type verifC27DDLStep struct {
+	kind, table int
 }
 
 // ---------------------------------------------------------------------------------------------
@@ -252,6 +335,7 @@ var verifC27OpenNative func(nc int) *DB
 var verifC27SetupNative func(d *DB, ev *verifC27Ev, wipe bool)
 var verifC27FireNative func(d *DB, ev *verifC27Ev) bool
 var verifC27TxNative func(d *DB, what string) bool
+var verifC27DDLNative func(d *DB, table, kind int) bool
 var verifC27CloseNative func(d *DB)
 
 var verifC27Lite *sqlite3.SQLiteConn
@@ -307,6 +391,7 @@ func verifC27Fill(dest []any, cells []verifC27Cell) error {
 
 // verifC27Open: a database whose three tables have nc untyped columns each, no hooks yet.
 func verifC27Open(nc int) *DB {
+	verifC27World.init(nc)
 	if !verifSymbolic() {
 		return verifC27OpenNative(nc)
 	}
@@ -363,6 +448,37 @@ func verifC27Tx(d *DB, what string, wrote bool) bool {
 	return true
 }
 
+// verifC27DDL: the definition of a table is changed by statements run on the write connection
+// outside BEGIN .. COMMIT (natively: real ALTER TABLE / DROP TABLE + CREATE TABLE). Each of these
+// statements is a committing write transaction of its own that changes no row of a user table:
+// SQLite runs the commit hook and no preupdate hook (the rows SQLite rewrites for DROP COLUMN and
+// removes for DROP TABLE are not reported; compared with real SQLite by TestVerifC27Calibrate).
+// While the commit hook runs the change is not yet visible to other connections, so the harness'
+// definitions are updated afterwards. The result is whether SQLite carried the step out.
+func verifC27DDL(d *DB, table, kind int) bool {
+	if kind == vdNone {
+		return true
+	}
+	ok := true
+	if !verifSymbolic() {
+		ok = verifC27DDLNative(d, table, kind)
+	} else {
+		stmts := 1
+		if kind == vdRecreateWider || kind == vdRecreateNarrower {
+			stmts = 2
+		}
+		for k := 0; k < stmts; k++ {
+			if verifC27CommitCB != nil && verifC27CommitCB() != 0 {
+				ok = false
+			}
+		}
+	}
+	if !verifC27World.apply(table, kind) {
+		panic("verif C27: impossible change of a table definition")
+	}
+	return ok
+}
+
 func verifC27Close(d *DB) {
 	if !verifSymbolic() {
 		verifC27CloseNative(d)
@@ -387,6 +503,7 @@ var verifC27Checks = []string{
 	"old-row-values",
 	"new-row-values",
 	"ids-only-carries-no-values",
+	"column-names",
 	"group-count",
 	"group-size",
 	"commit-not-vetoed",
@@ -412,6 +529,16 @@ func verifC27EvIs(ev *verifC27Ev, got *command.CDCEvent, idsOnly bool) string {
 	}
 	if got.Table != verifC27Tables[ev.table] {
 		return "table"
+	}
+	if ev.names != nil {
+		if len(got.ColumnNames) != len(ev.names) {
+			return "column-names"
+		}
+		for j := range ev.names {
+			if got.ColumnNames[j] != ev.names[j] {
+				return "column-names"
+			}
+		}
 	}
 	if ev.op == voInsert {
 		if got.OldRowId != 0 {
@@ -524,11 +651,24 @@ func verifC27ReachCells(cells []verifC27Cell) {
 //	       operation on any of three tables with one integer column, symbolic ids and values; every
 //	       filter of the table (none, three that split the tables differently; thorough also one
 //	       that matches nothing); row-ids-only on/off (quick: on only without a filter).
+//	band 2 "definitions": 2 (quick) / 3 (thorough; the third one's operation and table are
+//	       derived) changes of any operation on foo or bar, which start with two columns; between
+//	       two changes the definition of foo or of bar may be changed while the hook stays
+//	       registered (ADD COLUMN, DROP COLUMN first / last, DROP TABLE + CREATE TABLE with one
+//	       column more / fewer), so that events of one table differ in width; every row has the
+//	       width its table has when it is changed, mixed value kinds, symbolic ids, integers and
+//	       bytes; no filter; row-ids-only off (thorough: on/off).
 func VerifC27Hook() {
 	verifPanicsAreViolations()
 	thorough := verifTier() == 1
-	band := verifChoice("band", 2)
+	band := verifChoice("band", 3)
 	filter, nc, n := 0, 1, 1
+	if band == 2 {
+		nc, n = 2, 2
+		if thorough {
+			n = 3
+		}
+	}
 	if band == 1 {
 		n = 2
 		nf := 4
@@ -539,7 +679,7 @@ func VerifC27Hook() {
 	}
 	// quick: row-ids-only is combined with "no filter" only, and (band values) with one fixed row shape
 	idsOnly := false
-	if thorough || filter == 0 {
+	if thorough || (filter == 0 && band != 2) {
 		idsOnly = verifChoice("idsOnly", 2) == 1
 	}
 	independent := false
@@ -555,7 +695,11 @@ func VerifC27Hook() {
 		}
 		return verifC27Variants(prefix, nc, independent)
 	}
+	var plan verifC27Defs
+	plan.init(nc)
 	evs := make([]*verifC27Ev, n)
+	ddl := make([]verifC27DDLStep, n) // ddl[i] is carried out before change i
+	grew, shrank, recreated, elsewhere := false, false, false, false
 	for i := range evs {
 		p := verifName("e", i)
 		ev := &verifC27Ev{}
@@ -567,20 +711,62 @@ func VerifC27Hook() {
 		if band == 1 {
 			ev.table = verifChoice(p+".table", 3)
 		}
+		if band == 2 {
+			if i < 2 {
+				ev.table = verifChoice(p+".fooOrBar", 2)
+			} else {
+				ev.table = evs[0].table
+			}
+			if i > 0 {
+				ddl[i].kind = verifChoice(p+".ddl", vdKinds)
+				if ddl[i].kind != vdNone {
+					ddl[i].table = verifChoice(p+".ddlTable", 2)
+				}
+				before := len(plan.cols[ddl[i].table])
+				if !plan.apply(ddl[i].table, ddl[i].kind) {
+					return // SQLite refuses to take a table's only column away: no such program
+				}
+				// has the table of this change already reported a change under another definition?
+				seen := false
+				for _, prev := range evs[:i] {
+					seen = seen || prev.table == ev.table
+				}
+				after := len(plan.cols[ddl[i].table])
+				switch {
+				case ddl[i].kind == vdNone:
+				case ddl[i].table != ev.table:
+					elsewhere = true
+				case !seen:
+				case ddl[i].kind == vdRecreateWider || ddl[i].kind == vdRecreateNarrower:
+					recreated = true
+				case after > before:
+					grew = true
+				case after < before:
+					shrank = true
+				}
+			}
+		}
+		width := len(plan.cols[ev.table])
 		if ev.op != voInsert {
 			ev.oldID = verifI64(p + ".oldID")
-			if band == 0 {
+			switch band {
+			case 0:
 				ev.old = verifC27Cells(p+".old", nc, shape(p+".old"))
-			} else {
+			case 1:
 				ev.old = verifC27Cells(p+".old", 1, []int{vvInt})
+			case 2:
+				ev.old = verifC27Cells(p+".old", width, verifC27Rotation(2*i+1, width))
 			}
 		}
 		if ev.op != voDelete {
 			ev.newID = verifI64(p + ".newID")
-			if band == 0 {
+			switch band {
+			case 0:
 				ev.new = verifC27Cells(p+".new", nc, shape(p+".new"))
-			} else {
+			case 1:
 				ev.new = verifC27Cells(p+".new", 1, []int{vvInt})
+			case 2:
+				ev.new = verifC27Cells(p+".new", width, verifC27Rotation(2*i+4, width))
 			}
 		}
 		evs[i] = ev
@@ -591,7 +777,10 @@ func VerifC27Hook() {
 	if err := d.RegisterPreUpdateHook(rec.hook, verifC27Regexp(filter), idsOnly); err != nil {
 		panic(err)
 	}
-	for _, ev := range evs {
+	for i, ev := range evs {
+		if !verifC27DDL(d, ddl[i].table, ddl[i].kind) {
+			panic("change of a table definition failed")
+		}
 		verifC27Setup(d, ev, true)
 		if !verifC27Fire(d, ev) {
 			panic("change failed")
@@ -634,6 +823,20 @@ func VerifC27Hook() {
 	}
 	if len(want) < len(evs) {
 		verifReach("filtered-table-absent")
+	}
+	if !idsOnly {
+		if grew {
+			verifReach("table-wider-than-at-its-earlier-event")
+		}
+		if shrank {
+			verifReach("table-narrower-than-at-its-earlier-event")
+		}
+		if recreated {
+			verifReach("table-recreated-since-its-earlier-event")
+		}
+		if elsewhere {
+			verifReach("other-table-redefined")
+		}
 	}
 	if n >= 2 && filter != 0 {
 		a, b := evs[0].table, evs[1].table
@@ -819,11 +1022,17 @@ func VerifC27Stream() {
 
 // ---------------------------------------------------------------------------------------------
 // VerifC27Chain: both hooks of a db.DB wired to a CDCStreamer the way store.Store does it
-// (RegisterPreUpdateHook(streamer.PreupdateHook, filter, idsOnly), RegisterCommitHook(
-// streamer.CommitHook)), then 2 (quick) / 3 (thorough) transactions of 0..2 row changes each that
-// are committed, rolled back, or run statement by statement in autocommit mode.
+// (NewCDCStreamer(ch, the database), RegisterPreUpdateHook(streamer.PreupdateHook, filter, idsOnly),
+// RegisterCommitHook(streamer.CommitHook)), then 2 (quick) / 3 (thorough) transactions of 0..2 row
+// changes each that are committed, rolled back, or run statement by statement in autocommit mode.
+// Between two transactions the definition of foo or bar may be changed (ADD COLUMN / DROP COLUMN,
+// statements of their own outside BEGIN .. COMMIT); the rows updated and deleted were all put in
+// place before the hooks were registered, so they live through these changes.
 // Demanded: one group per committed transaction that changed a row of a table the filter lets
-// through, holding exactly that transaction's events in order.
+// through, holding exactly that transaction's events in order; every event carries the row as it
+// reads under the table's definition at the time of the change (NULL in a column added after the row
+// was stored, nothing for a dropped column) and the column names the table has when the
+// transaction commits.
 
 const (
 	vtCommit = iota
@@ -832,16 +1041,40 @@ const (
 )
 
 type verifC27TxShape struct {
+	ddl verifC27DDLStep // carried out before the transaction begins
 	end int
 	evs []*verifC27Ev
 }
 
+// the column names of the database: natively the real (*DB).ColumnNames (what store.Store hands to
+// NewCDCStreamer), in the engine the harness' table definitions
+type verifC27LiveNames struct {
+	d *DB
+}
+
+func (p *verifC27LiveNames) ColumnNames(table string) ([]string, error) {
+	if !verifSymbolic() {
+		return p.d.ColumnNames(table)
+	}
+	for t, name := range verifC27Tables {
+		if name == table {
+			return append([]string{}, verifC27World.cols[t]...), nil
+		}
+	}
+	return nil, errors.New("no such table: " + table)
+}
+
 // verifC27WantGroups: keepRolledBack=false is the property; true describes the recorded defect
-// (events of a rolled-back transaction stay pending and travel with the next commit).
+// (events of a rolled-back transaction stay pending and travel with the next commit - which may be
+// the commit of a statement that changes a table definition).
 func verifC27WantGroups(txs []verifC27TxShape, filter int, keepRolledBack bool) [][]*verifC27Ev {
 	var groups [][]*verifC27Ev
 	var pend []*verifC27Ev
 	for _, tx := range txs {
+		if tx.ddl.kind != vdNone && len(pend) > 0 {
+			groups = append(groups, pend)
+			pend = nil
+		}
 		for _, ev := range tx.evs {
 			if verifC27Verdict[filter][ev.table] && (tx.end != vtRollback || keepRolledBack) {
 				pend = append(pend, ev)
@@ -876,39 +1109,103 @@ func verifC27GroupsAre(want [][]*verifC27Ev, got []*command.CDCIndexedEventGroup
 	return ""
 }
 
+// the changes of a table definition VerifC27Chain chooses from (quick: the first four)
+var verifC27ChainDDL = []verifC27DDLStep{
+	{vdNone, 0}, {vdAddColumn, 0}, {vdDropFirst, 0}, {vdAddColumn, 1},
+	{vdDropLast, 0}, {vdDropFirst, 1}, {vdDropLast, 1},
+}
+
 func VerifC27Chain() {
 	verifPanicsAreViolations()
+	thorough := verifTier() == 1
 	ntx := 2
-	if verifTier() == 1 {
+	if thorough {
 		ntx = 3
 	}
 	filter := verifChoice("filter", 2) // none | ^foo$
 	idsOnly := false
 	txs := make([]verifC27TxShape, ntx)
+	var plan verifC27Defs
+	plan.init(2)
+	first := append([]string{}, plan.cols[0]...) // the two columns every table starts with
+	var changed [3]bool                          // has the table reported a change (let through by the filter) so far?
 	g := 0
 	for t := range txs {
 		p := verifName("tx", t)
+		// table definitions only change in the runs without a filter; thorough: before the second
+		// transaction any of the seven steps, before the third one of the first three
+		if t > 0 && filter == 0 {
+			nd := 4
+			if thorough {
+				nd = len(verifC27ChainDDL)
+				if t > 1 {
+					nd = 3
+				}
+			}
+			txs[t].ddl = verifC27ChainDDL[verifChoice(p+".ddl", nd)]
+			if !plan.apply(txs[t].ddl.table, txs[t].ddl.kind) {
+				return // SQLite refuses to take a table's only column away: no such program
+			}
+		}
 		txs[t].end = verifChoice(p+".end", 3)
 		ne := verifChoice(p+".changes", 3)
 		for i := 0; i < ne; i++ {
 			q := verifName(p+".e", i)
 			// row ids are concrete and pairwise distinct (the rows must be in place before the first
-			// BEGIN of the native run), the one integer column holds concrete, pairwise distinct
-			// values; the first change of a transaction is on foo, the second on bar
+			// BEGIN of the native run), the columns hold concrete, pairwise distinct values of mixed
+			// kinds; the first change of a transaction is on foo, the second on bar
 			ev := &verifC27Ev{table: i}
 			if i == 0 || ntx == 2 {
 				ev.op = verifChoice(q+".op", 3)
 			} else {
 				ev.op = (txs[t].evs[0].op + 1 + t) % 3 // thorough: the second change's operation is derived
 			}
+			cols := plan.cols[ev.table]
+			ev.names = append([]string{}, cols...)
+			tag := string(rune('a' + g))
 			id := int64(10 + 4*g)
 			if ev.op != voInsert {
 				ev.oldID = id
-				ev.old = []verifC27Cell{{kind: vkInt, i: int64(1000 + g)}}
+				// the row as stored under the first definition, and as it reads now
+				ev.seed = []verifC27Cell{{kind: vkInt, i: int64(1000 + g)}, {kind: vkText, s: "s" + tag}}
+				ev.old = make([]verifC27Cell, len(cols))
+				kept := 0
+				for j, name := range cols {
+					for k := range first {
+						if name == first[k] {
+							ev.old[j] = ev.seed[k]
+							kept++
+						}
+					}
+				}
+				if kept < len(cols) {
+					verifReach("row-older-than-one-of-its-columns")
+				}
+				if kept < len(first) {
+					verifReach("row-lost-a-column")
+				}
 			}
 			if ev.op != voDelete {
 				ev.newID = id + int64(g%2) // every other update moves the row to a new id
-				ev.new = []verifC27Cell{{kind: vkInt, i: int64(2000 + g)}}
+				ev.new = make([]verifC27Cell, len(cols))
+				for j := range cols {
+					switch (g + j) % 4 {
+					case 0:
+						ev.new[j] = verifC27Cell{kind: vkInt, i: int64(2000 + 10*g + j)}
+					case 1:
+						ev.new[j] = verifC27Cell{kind: vkText, s: "n" + tag + string(rune('0'+j))}
+					case 2:
+						ev.new[j] = verifC27Cell{kind: vkNil}
+					case 3:
+						ev.new[j] = verifC27Cell{kind: vkBlob, b: []byte{byte(g), byte(j)}}
+					}
+				}
+			}
+			if verifC27Verdict[filter][ev.table] && txs[t].end != vtRollback {
+				if changed[ev.table] && len(cols) != len(first) {
+					verifReach("same-table-reported-under-two-definitions")
+				}
+				changed[ev.table] = true
 			}
 			txs[t].evs = append(txs[t].evs, ev)
 			g++
@@ -916,8 +1213,8 @@ func VerifC27Chain() {
 	}
 
 	ch := make(chan *command.CDCIndexedEventGroup, 8)
-	d := verifC27Open(1)
-	s, err := NewCDCStreamer(ch, &verifC27Names{})
+	d := verifC27Open(2)
+	s, err := NewCDCStreamer(ch, &verifC27LiveNames{d: d})
 	if err != nil {
 		panic(err)
 	}
@@ -935,6 +1232,9 @@ func VerifC27Chain() {
 	s.Reset(1)
 	vetoed := false
 	for _, tx := range txs {
+		if !verifC27DDL(d, tx.ddl.table, tx.ddl.kind) {
+			vetoed = true
+		}
 		if tx.end != vtAuto && !verifC27Tx(d, "BEGIN", false) {
 			panic("BEGIN failed")
 		}
